@@ -18,5 +18,5 @@ def run_net(case, own, nontrivial, key=None, sample_ops=14):
     res["key"] = key(res, run_) if key else res["digest"]
     res["sample"] = {"cfg": {k: v for k, v in case["cfg"].items() if k != "sched"}, "n_ops": len(case["ops"]),
                      "ops_head": case["ops"][:sample_ops], "trace_tail": res.pop("trace")[-8:]}
-    res["extra"] = {"handler_kinds": res.pop("kinds")}
+    res["extra"] = {"handler_kinds": res.pop("kinds"), "last_change_before_stop_kinds": res.pop("last_kinds", [])}
     return res
